@@ -1028,4 +1028,273 @@ theorem unlinkOK_collectItems {l : List Nat} {rest : List Item} (hl : l.Nodup) (
         simp only [List.cons_append, List.cons.injEq] at he
         exact hq pre'' post j he.2.2
 
+
+
+theorem WFacts_mono {v : Variant} {t : Dir} {i : Nat} {c : Chunk} {n : Nat} {b : Bool} (h : WFacts v t i c n false) :
+    WFacts v t i c n b := by
+  obtain ⟨h1, h2, h3⟩ := h
+  refine ⟨h1, h2, ?_⟩
+  intro hv hb; subst hb; exact h3 hv rfl
+
+theorem not_mem_of_notCollected {p : List Item} (h : notCollected p = false) : Item.collect ∉ p := by
+  intro hm
+  have : notCollected p = true := by simpa [notCollected] using hm
+  rw [h] at this; cases this
+
+theorem submitJoin_of_rank {p : List Item} (h : ∀ x ∈ p, 17 ≤ rank x) : SubmitJoin p := by
+  intro pre post i ops he
+  have := h (.submit i ops) (by rw [he]; simp)
+  simp [rank] at this
+
+theorem length_forkOps (i : Nat) (c : Chunk) : dataLen c + 3 ≤ (forkOps i c).length := by
+  unfold forkOps dataLen
+  by_cases h : c.rows.isEmpty = true <;> simp [h, writeOps] <;> split <;> simp <;> omega
+
+/-- `json.load(metadata_i.json)` and the append of what it holds -/
+theorem inv_readInfo {cs : List Chunk} {v : Variant} {c : Cfg} {i : Nat} {rest : List Item} {ci : ChunkInfo} (h : Inv cs v c)
+    (hp : c.prog = .readInfo i :: rest) (hread : c.fs.temp.bind (·.get (.cmeta i)) = some (.info ci)) :
+    Inv cs v { c with prog := rest, md := { c.md with chunks := c.md.chunks ++ [ci] } } := by
+  have hs : Shape (.readInfo i :: rest) := hp ▸ h.shape
+  have hk : hr c.prog = 20 := by rw [hp]; rfl
+  have hge : 20 ≤ hr rest := by have := hs.hr_rest_ge; simpa [rank] using this
+  have hle : hr rest ≤ 22 := by
+    have := hs.no_cross mem_milestones_fwLast (by simp [rank]) (by simp)
+    simpa [rank] using this
+  refine inv_late hs.tail (by simp only; omega) h.wtemp ?_ ?_ ?_ h.safe h.handTerm ?_
+    (tempSome_pop (c := c) h hp (by simp [rank])) (by intro _ _; exact h.termLate (by omega) (by omega))
+  · intro _ _; exact h.quiet (by omega) (by omega)
+  · intro _ _; exact h.closedMd (by omega) (by omega)
+  · intro h23 _; simp only at h23; omega
+  · intro hh _ _
+    have m := main_of_inv h hp (by simp [rank]) hh
+    have hv : v = .forked := by
+      cases v with
+      | forked => rfl
+      | serial => have := m.noRead (by simp); rw [hp] at this; simp [readIdx] at this
+      | executor => have := m.noRead (by simp); rw [hp] at this; simp [readIdx] at this
+    subst hv
+    obtain ⟨hi, hget⟩ := m.reads i (by rw [hp]; simp [readIdx])
+    have hci : ci = infoOf i cs[i] := by
+      cases ht : c.fs.temp with
+      | none => simp [ht] at hread
+      | some t =>
+        have := hget t ht
+        simp [ht, this] at hread
+        exact hread.symm
+    have hnc : notCollected c.prog = false := (m.lateItems (Or.inl (by rw [hp]; simp [readIdx]))).2
+    have hncr : notCollected rest = false := by rw [hp] at hnc; exact notCollected_tail_false hnc
+    refine main_pop_md m hp hs.hr_rest_ge (by simp) (by simp) _ ?_ (by intro h18; omega) (by simp) (by simp)
+    have := m.chunksMd
+    rw [hp] at this
+    simp only [pending, hncr, readIdx, List.filterMap_cons] at this ⊢
+    have hsome : cs[i]? = some cs[i] := by simp [hi]
+    rw [← hp, hnc] at this
+    simp [hsome] at this
+    rw [hci]
+    simpa [List.append_assoc] using this
+
+
+
+/-- what `_close` finds when it globs the per-chunk metadata on the main path: nothing for the serial and executor
+variants, exactly one file per chunk, in order, for forked savers -/
+theorem collect_main {cs : List Chunk} {v : Variant} {c : Cfg} {rest : List Item} (m : Main cs v c) (hs : Shape c.prog)
+    (hp : c.prog = .collect :: rest) {t : Dir} (ht : c.fs.temp = some t) :
+    (v ≠ .forked → collectList t = []) ∧ (v = .forked → collectList t = List.range cs.length) ∧
+    (∀ i ∈ collectList t, ∃ hj : i < cs.length, t.get (.cmeta i) = some (.info (infoOf i cs[i]))) := by
+  have hnc : notCollected c.prog = true := by rw [hp]; simp [notCollected]
+  have hk : 17 ≤ hr c.prog := by rw [hp]; simp [rank]
+  have hr17 : ∀ x ∈ c.prog, 17 ≤ rank x := fun x hx => by have := hs.sorted.hr_le_mem x hx; omega
+  have hok := all_ok_late m hs.sorted hk
+  by_cases hv : v = .forked
+  · subst hv
+    have hpres : ∀ j, (t.get (.cmeta j)).isSome = true ↔ j < cs.length := by
+      intro j
+      constructor
+      · intro hj
+        obtain ⟨w, hw, hwi⟩ := m.names hnc t ht j (by intro e; simp [e] at hj)
+        obtain ⟨hjl, _⟩ := m.wstd w hw (by rw [hok w hw]; simp)
+        omega
+      · intro hj
+        rcases m.cover j hj (by simp [needsW]) with hc | ⟨w, hw, hwi⟩
+        · rw [submitIdx_nil_of_rank hr17] at hc; simp at hc
+        · have hst := hok w hw
+          obtain ⟨hjl, n, h1, h2, h3, h4⟩ := m.wstd w hw (by rw [hst]; simp)
+          subst hwi
+          have hops : w.ops = [] := h3.mp hst
+          have hn : dataLen cs[w.i] + 2 ≤ n := by
+            rw [hops] at h1
+            have hl := congrArg List.length h1
+            simp only [List.length_nil, List.length_drop, stdOps] at hl
+            have := length_forkOps w.i cs[w.i]
+            simp only [stdOps] at h2
+            omega
+          have := (h4 t ht).2.2 rfl (by simp [hnc]) hn
+          simp [this]
+    have hl := collectList_eq_range hpres
+    refine ⟨fun h => absurd rfl h, fun _ => hl, ?_⟩
+    intro i hi
+    rw [hl] at hi
+    have hil : i < cs.length := by simpa using hi
+    refine ⟨hil, ?_⟩
+    rcases m.cover i hil (by simp [needsW]) with hc | ⟨w, hw, hwi⟩
+    · rw [submitIdx_nil_of_rank hr17] at hc; simp at hc
+    · have hst := hok w hw
+      obtain ⟨hjl, n, h1, h2, h3, h4⟩ := m.wstd w hw (by rw [hst]; simp)
+      subst hwi
+      have hops : w.ops = [] := h3.mp hst
+      have hn : dataLen cs[w.i] + 2 ≤ n := by
+        rw [hops] at h1
+        have hl' := congrArg List.length h1
+        simp only [List.length_nil, List.length_drop, stdOps] at hl'
+        have := length_forkOps w.i cs[w.i]
+        simp only [stdOps] at h2
+        omega
+      exact (h4 t ht).2.2 rfl (by simp [hnc]) hn
+  · have hnone : ∀ j, (t.get (.cmeta j)).isSome = true ↔ j < 0 := by
+      intro j; simp [m.nocmeta hv t ht j]
+    have hl := collectList_eq_range hnone
+    refine ⟨fun _ => by simpa using hl, fun h => absurd h hv, ?_⟩
+    intro i hi; rw [hl] at hi; simp at hi
+
+
+
+theorem nodup_range (n : Nat) : (List.range n).Nodup := List.nodup_range
+
+/-- `sorted(glob(temp/metadata_*.json))` -/
+theorem inv_collect {cs : List Chunk} {v : Variant} {c : Cfg} {rest : List Item} (h : Inv cs v c)
+    (hp : c.prog = .collect :: rest) :
+    Inv cs v { c with prog := collectItems (collectList (c.fs.temp.getD [])) ++ rest } := by
+  have hs : Shape (.collect :: rest) := hp ▸ h.shape
+  have hk : hr c.prog = 20 := by rw [hp]; rfl
+  obtain ⟨t, ht⟩ := Option.ne_none_iff_exists'.mp (h.tempSome (by omega) (by omega))
+  have hgetD : c.fs.temp.getD [] = t := by simp [ht]
+  rw [hgetD]
+  have hs' := shape_collect hs (collectList t)
+  have hfw : Item.flushWrite .last ∈ rest := by
+    have := hs.miles _ mem_milestones_fwLast (by simp [rank])
+    simpa using this
+  have hge : 20 ≤ hr (collectItems (collectList t) ++ rest) := by
+    cases hl : collectItems (collectList t) with
+    | nil => have := hs.hr_rest_ge; simpa [rank] using this
+    | cons y q =>
+      have := (rank_collectItems _ y (by rw [hl]; simp)).1
+      simp [this]
+  have hle : hr (collectItems (collectList t) ++ rest) ≤ 22 := by
+    have := hs'.sorted.hr_le_mem (.flushWrite .last) (by simp [hfw])
+    simpa [rank] using this
+  refine inv_late hs' (by simp only; omega) h.wtemp ?_ ?_ ?_ h.safe h.handTerm ?_ ?_ ?_
+  · intro _ _; exact h.quiet (by omega) (by omega)
+  · intro _ _; exact h.closedMd (by omega) (by omega)
+  · intro h23 _; simp only at h23; omega
+  · intro hh _ _
+    have m := main_of_inv h hp (by simp [rank]) hh
+    obtain ⟨hl0, hlr, hreads⟩ := collect_main m h.shape hp ht
+    have hnc : notCollected c.prog = true := by rw [hp]; simp [notCollected]
+    have hncr : notCollected rest = false := m.collectOnce [] rest (by rw [hp]; simp)
+    have hncn : notCollected (collectItems (collectList t) ++ rest) = false := by rw [notCollected_collectItems]; exact hncr
+    have hnolate : readIdx c.prog = [] ∧ ∀ i, Item.op (.unlink .temp (.cmeta i)) ∉ c.prog := by
+      refine ⟨?_, ?_⟩
+      · cases hri : readIdx c.prog with
+        | nil => rfl
+        | cons a q =>
+          have := (m.lateItems (Or.inl (by rw [hri]; simp))).2
+          rw [hnc] at this; cases this
+      · intro i hi
+        have := (m.lateItems (Or.inr ⟨i, hi⟩)).2
+        rw [hnc] at this; cases this
+    have hrr : readIdx rest = [] := by have := hnolate.1; rw [hp] at this; simpa [readIdx] using this
+    have hur : ∀ i, Item.op (.unlink .temp (.cmeta i)) ∉ rest := fun i hi => hnolate.2 i (by rw [hp]; simp [hi])
+    have hr17 : ∀ x ∈ c.prog, 17 ≤ rank x := fun x hx => by have := h.shape.sorted.hr_le_mem x hx; omega
+    have hok := all_ok_late m h.shape.sorted (by omega)
+    have hsub : submitIdx c.prog = [] := submitIdx_nil_of_rank hr17
+    have hsubr : submitIdx rest = [] := by rw [hp] at hsub; simpa [submitIdx] using hsub
+    have hnd : (collectList t).Nodup := by
+      by_cases hv : v = .forked
+      · rw [hlr hv]; exact nodup_range _
+      · rw [hl0 hv]; simp
+    constructor
+    · -- chunk list of the metadata
+      have hmd := m.chunksMd
+      by_cases hv : v = .forked
+      · subst hv
+        simp only [pending, hnc, if_true] at hmd
+        have hnil : c.md.chunks = [] := by
+          have := congrArg List.length hmd
+          simp at this
+          exact this
+        show c.md.chunks ++ pending .forked cs (collectItems (collectList t) ++ rest) = infos cs 0
+        rw [hnil]
+        have hncn' : notCollected (collectItems (List.range cs.length) ++ rest) = false := by
+          rw [← hlr rfl]; exact hncn
+        simp only [pending, readIdx_collectItems, hrr, List.append_nil, List.nil_append, hlr rfl]
+        rw [if_neg (by rw [hncn']; simp)]
+        exact filterMap_range_infos cs
+      · rw [hl0 hv]
+        have : pending v cs (collectItems [] ++ rest) = pending v cs c.prog := by
+          cases v with
+          | forked => exact absurd rfl hv
+          | serial => simp [pending, collectItems, hp, pendApp]
+          | executor => simp [pending, collectItems, hp, pendApp]
+        rw [this]; exact hmd
+    · intro j hj hn
+      rcases m.cover j hj hn with hc | hw
+      · rw [hsub] at hc; simp at hc
+      · exact Or.inr hw
+    · have := m.nodup
+      rw [hsub] at this
+      simpa [submitIdx_collectItems, hsubr] using this
+    · intro i ops hm
+      simp only at hm
+      rcases List.mem_append.mp hm with hm | hm
+      · have := (rank_collectItems _ _ hm).1; simp [rank] at this
+      · exact m.substd i ops (by rw [hp]; simp [hm])
+    · intro w hw hf
+      obtain ⟨hj, n, h1, h2, h3, h4⟩ := m.wstd w hw hf
+      exact ⟨hj, n, h1, h2, h3, fun t' ht' => by
+        have := h4 t' ht'
+        rw [hnc] at this
+        exact WFacts_mono this⟩
+    · -- every chunk write has succeeded by now
+      cases v with
+      | serial =>
+        simp only [Awaited]
+        refine ⟨fun w hw => hok w ((List.dropLast_sublist _).subset hw), ?_⟩
+        intro w hl hne
+        exact absurd (hok w (List.mem_of_getLast? hl)) hne
+      | executor | forked =>
+        simp only [Awaited]
+        right
+        exact ⟨by simp [submitIdx_collectItems, hsubr], hok⟩
+    · intro i hi
+      simp only [readIdx_collectItems, hrr, List.append_nil] at hi
+      obtain ⟨hj, hget⟩ := hreads i hi
+      refine ⟨hj, ?_⟩
+      intro t' ht'
+      simp only at ht'
+      rw [ht] at ht'; injection ht' with ht'; subst ht'
+      exact hget
+    · intro hn; simp only at hn; rw [hncn] at hn; cases hn
+    · intro h18; simp only at h18; omega
+    · intro _
+      apply submitJoin_of_rank
+      intro x hx
+      have := hs'.sorted.hr_le_mem x hx
+      omega
+    · intro hv
+      have := m.noApp hv
+      rw [hp] at this
+      simpa [pendApp_collectItems, pendApp] using this
+    · intro hv
+      simp only [readIdx_collectItems, hrr, List.append_nil]
+      exact hl0 hv
+    · exact m.nocmeta
+    · exact unlinkOK_collectItems hnd hrr (unlinkOK_of_no_unlink hur)
+    · intro pre post he
+      have he' : collectItems (collectList t) ++ rest = pre ++ Item.collect :: post := he
+      exact absurd (by rw [he']; simp) (not_mem_of_notCollected hncn)
+    · intro _
+      exact ⟨by simp only; omega, hncn⟩
+  · intro _; exact h.tempSome (by omega) (by omega)
+  · intro _ _; exact h.termLate (by omega) (by omega)
+
 end Strax.FS
